@@ -54,7 +54,7 @@ def workloads(ctx):
     out = []
     for name, mod in C10.value_modules():
         rng = ctx.rng.__class__(ctx.seed * 104729 + int(name[1:]))
-        cases = mod.gen_cases(rng, ctx.tier)
+        cases = C10.cap_cases(rng, mod.gen_cases(rng, ctx.tier), 25000)
         out.append((name, mod.HARNESS, cases, getattr(mod, "PARSE", V.parse_view_record)))
     rng = ctx.rng.__class__(ctx.seed * 104729 + 10)
     out.append(("pipelines", C10.HARNESS, C10.gen_pipes(rng, ctx.tier), C10.parse_pipe))
